@@ -86,6 +86,11 @@ CHECKS = {
    text="Exhaustive within the bound: 300 (quick) / 1176 (thorough) signatures (0..1 / 0..2 fixed parameters of 4 types, +/- options map, +/- helper context by struct or interface type, 6 result shapes; variadic ...string / ...interface{}) x all calls with 0..3 / 0..4 arguments of 5 kinds x +/- block: 62k / 1.8M cells. TLC: the transcription of evalCallExpression's binding equals the declarative expectation wherever the statement determines it; the pinned commit's variadic nil handling violates it. Real code: invoked-or-not, each received argument (value / zero value / auto-supplied empty map / helper context with HasBlock and rendered block), arguments evaluated once left to right, first result as value, failing error result wraps and empties the output.",
    note="Calls omitting an ordinary parameter (zero-filled by the code) are unspecified. Signatures with 3 fixed parameters are not enumerated.",
    design="§6 C12"),
+ "C11": dict(
+   technique="TLC explicit-state exploration of a path walker over a self-describing data graph (GenPaths.tla, invariants NavTheorem/FailTheorem on the reference semantics); every path prefix replayed into real plush.Render over the same graph built from real Go types",
+   text="Exhaustive within the bound: all navigations of <=3 (quick) / <=7 (thorough) steps from 4 roots over 3 struct types (fields, nil pointers, slices, slices of pointers, arrays, maps, value/pointer-receiver methods returning strings, structs, pointers, nil), steps = field (existing/missing/unexported/through nil), index (literal and variable, out of range), map key (present/missing), method call; 3 uses each. Real code: a completed navigation must render exactly the leaf that spells that Go path (computed by the harness from the Go navigation itself), an impossible one must be an error or empty output; never another leaf, never a panic.",
+   note="Trusted: the harness's Go graph mirrors the spec's graph (mismatch would show as failures on the unchanged tree). Methods with arguments and paths inside index expressions are not walked.",
+   design="§6 C11"),
 }
 
 NOT_YET = "check not built yet in this session (work in progress, see DESIGN.md §8)"
